@@ -17,7 +17,13 @@ import (
 	"time"
 )
 
-const VerifDir = "/verif"
+// VerifDir is where evidence/, replays/ and known_findings.txt live (the directory of ./check).
+var VerifDir = func() string {
+	if d := os.Getenv("VERIF_DIR"); d != "" {
+		return d
+	}
+	return "/verif"
+}()
 
 type Violation struct {
 	Sig    string `json:"sig"`
